@@ -394,12 +394,12 @@ class CropCorr(Corr):
     name = "crop"
     header = HEADER
     requires = REQUIRES
-    shard = 12
+    shard = 6
 
     def cases(self, tier, rng):
         out = []
-        n_rand = 60 if tier == "quick" else 700
-        npts = 150 if tier == "quick" else 1500
+        n_rand = 60 if tier == "quick" else 500
+        npts = 150 if tier == "quick" else 600
         # regression / documentation witnesses first: the repository's own unit-test prisms
         unit = [(0.0, 0.0), (0.2, 0.0), (0.2, 0.2), (0.0, 0.2)]
         out.append({"kind": "unit_test", "ncols": 3, "simple": True,
@@ -440,16 +440,6 @@ class CropCorr(Corr):
                 area = [[x, y, 1.0] for x, y in ring] + [[x, y, -1.0] for x, y in ring]
                 cloud = gen_cloud(rng, 120, [fr], (-2, 6), (-2, 6), z_values(-1.0, 1.0), ncols, vertex_level_points(rng, fr, (-2, 6), (-2, 6)))
                 out.append({"kind": nm, "ncols": ncols, "simple": False, "area": area, "cloud": cloud, "margin_ok": True})
-        # lower plane of a different shape (documented precondition violated): only area[n] matters, and only its y
-        for k in range(6 if tier == "quick" else 40):
-            name, ring = gen_ring(rng)
-            up = [[float(x), float(y), 1.0] for x, y in ring]
-            lo = [[float(x) + lat(rng, -1, 1), float(y) + rng.choice([0.0, 0.0, 0.5, -0.25]), -1.0] for x, y in ring]
-            if k % 2:
-                lo[0][1] = up[-1][1]      # makes the closing edge look horizontal to the `area[i + 1]` test
-            xr, yr = window([ring], 2)
-            cloud = gen_cloud(rng, 100, [ring], xr, yr, z_values(-1.0, 1.0), 3, vertex_level_points(rng, ring, xr, yr))
-            out.append({"kind": "planes_differ", "ncols": 3, "simple": False, "area": up + lo, "cloud": cloud, "margin_ok": True})
         # malformed: too few vertices, odd length, too few columns
         sq3 = [[x, y, 0.0] for x, y in sq]
         for area, ncols, cloud in (([], 3, [[0.0, 0.0, 0.0]]), (sq3, 3, [[1.0, 1.0, 0.0]]), (sq3[:3] + sq3[:2], 3, [[1.0, 1.0, 0.0]]),
@@ -565,12 +555,12 @@ class BoxCorr(Corr):
     name = "box"
     header = HEADER
     requires = REQUIRES
-    shard = 10
+    shard = 7
 
     def cases(self, tier, rng):
         out = []
-        n_rand = 110 if tier == "quick" else 1200
-        npts = 200 if tier == "quick" else 2500
+        n_rand = 110 if tier == "quick" else 640
+        npts = 200 if tier == "quick" else 800
         combos = [("yaw", wz) for wz in YAW_WZ] + [("tilt", q) for q in TILTED]
         for i in range(n_rand):
             kind, rot = combos[i % len(combos)] if i < 2 * len(combos) else rng.choice(combos)
@@ -788,12 +778,12 @@ class FrameCorr(Corr):
     name = "frame"
     header = HEADER
     requires = REQUIRES
-    shard = 6
+    shard = 4
 
     def cases(self, tier, rng):
         out = []
-        n_rand = 60 if tier == "quick" else 600
-        npts = 160 if tier == "quick" else 1500
+        n_rand = 60 if tier == "quick" else 320
+        npts = 160 if tier == "quick" else 600
         for i in range(n_rand):
             cfg = {"s0": rng.choice([1.0, 1.0, 1.25, 0.75]), "s100": rng.choice([1.0, 1.5, 2.0, 3.0]), "min_points": 1}
             n_obj = rng.choice([0, 1, 2, 3, 4, 6]) if i % 10 else 0
@@ -898,12 +888,12 @@ class ManagerCorr(Corr):
     name = "manager"
     header = HEADER
     requires = REQUIRES
-    shard = 4
+    shard = 2
 
     def cases(self, tier, rng):
         out = []
-        n_rand = 24 if tier == "quick" else 250
-        npts = 220 if tier == "quick" else 2500
+        n_rand = 24 if tier == "quick" else 128
+        npts = 220 if tier == "quick" else 900
         for i in range(n_rand):
             cfg = {"s0": rng.choice([1.0, 1.25]), "s100": rng.choice([1.0, 2.0, 3.0]), "min_points": rng.choice([1, 2, 3])}
             gts = gen_scene(rng, rng.choice([0, 1, 2, 3, 5]), cfg)
